@@ -9,7 +9,7 @@ for d in "$@"; do
     echo "$d: patch does not change the translated files (or no longer applies)"; rm -rf $wt; continue; fi
   PYTHONPATH=/verif /venv/bin/python -c "
 from harness.translate import check_tie
-for w in ('Intg','Dc'):
+for w in ('Intg','Dc','Smp'):
     r=check_tie('$wt', w); print('$d', w+':', 'tie ok' if r['ok'] else 'BROKEN: '+r['stage']+' | '+r['log'].strip().replace('\n',' ')[:160])" 2>&1 | grep -v WARNING
   rm -rf $wt /verif/work/gen_$(python3 -c "import hashlib,os;print(hashlib.sha256(os.path.realpath('$wt').encode()).hexdigest()[:10])")
 done
